@@ -11,19 +11,37 @@ META = {
 
 
 def run(c):
+    c.tlc_mc("AutonatServer", "MCAutonatServer.cfg")
+    c.tlc_mc("AutonatServer", "MCAutonatServer_canary.cfg", expect=["OneDialBackPerPeer"])
+    c.tlc_mc("AutonatServer", "MCAutonatServer_canary2.cfg", expect=["OneDialBackPerPeer"])
     drv = c.build("drv-autonat")
     if c.replay:
-        recs = c.rundir / "replay_filter.ndjson"
-        c.drive(drv, ["filter", "replay", c.replay, recs])
-        n, bad = c.tlc_relation("RelAutonat", recs, timeout=600)
-        c.evaluations = n
+        first = json.loads(open(c.replay).readline())
+        if first.get("e") == "reset":
+            t = c.rundir / "replay_server.ndjson"
+            c.drive(drv, ["server", "replay", c.replay, t])
+            c.tlc_trace("TraceAutonat", t)
+        else:
+            recs = c.rundir / "replay_filter.ndjson"
+            c.drive(drv, ["filter", "replay", c.replay, recs])
+            n, bad = c.tlc_relation("RelAutonat", recs, timeout=600)
+            c.evaluations = n
         return c.finish("model_checking", rule="replay")
+    # server clause: one dial-back per peer, throttling, dialed addresses
+    t = c.rundir / "server.ndjson"
+    c.drive(drv, ["server", "random", c.seed, c.pick(400, 8000), t])
+    ok, total = c.tlc_trace("TraceAutonat", t, timeout=1500)
+    ndial = sum(1 for line in open(t) if '"e":"dial"' in line)
+    c.extra_cov["server_runs"] = total
+    c.extra_cov["server_dial_backs_observed"] = ndial
     recs = c.rundir / "filter_exh.ndjson"
     c.drive(drv, ["filter", "exhaustive", c.pick(3, 4), recs])
-    n1, bad = c.tlc_relation("RelAutonat", recs, timeout=1500)
     recs2 = c.rundir / "filter_rand.ndjson"
     c.drive(drv, ["filter", "random", c.seed, c.pick(3000, 30000), recs2])
-    n2, bad2 = c.tlc_relation("RelAutonat", recs2, timeout=1500)
+    allrecs = c.rundir / "filter_all.ndjson"
+    allrecs.write_text(recs.read_text() + recs2.read_text())
+    n1, bad = c.tlc_relation("RelAutonat", allrecs, timeout=1500)
+    n2 = 0
     nt = 0
     for f in (recs, recs2):
         for line in open(f):
